@@ -262,6 +262,9 @@ pub enum DbOp {
     /// create an iterator now (it pins the current state) and read it only at the END of the history;
     /// the flag positions it on the first entry right away (so the first file is already open)
     PinIterator(bool),
+    /// (faults / crash oracles only) close, drop crash leftovers into the directory - an orphan
+    /// table file, a temp file, a superseded manifest - and reopen
+    Plant,
 }
 
 fn make_batch(ops: &[(Vec<u8>, Option<Vec<u8>>)]) -> crate::Batch {
@@ -288,6 +291,7 @@ pub fn run_history(ops: &[DbOp], keys: &[Vec<u8>]) -> Vec<String> {
             DbOp::Flush => db.as_ref().unwrap().force_memtable_compaction().unwrap(),
             DbOp::CompactAll => db.as_ref().unwrap().compact_range(None..None),
             DbOp::Snapshot => {}
+            DbOp::Plant => {}
             DbOp::PinIterator(_) => {}
             DbOp::Batch(ops) => db.as_ref().unwrap().apply(WriteOptions::default(), make_batch(ops)).unwrap(),
             DbOp::Reopen(reuse) => {
@@ -370,6 +374,7 @@ pub fn run_views(ops: &[DbOp], keys: &[Vec<u8>], moves: &str) -> Vec<View> {
             DbOp::Flush => db.as_ref().unwrap().force_memtable_compaction().unwrap(),
             DbOp::CompactAll => db.as_ref().unwrap().compact_range(None..None),
             DbOp::Snapshot => snaps.push((i, db.as_ref().unwrap().get_snapshot())),
+            DbOp::Plant => {}
             DbOp::Batch(ops) => db.as_ref().unwrap().apply(WriteOptions::default(), make_batch(ops)).unwrap(),
             DbOp::Reopen(reuse) => {
                 snaps.clear();
@@ -618,15 +623,51 @@ pub mod faults {
     }
 
     /// Runs the history with the fault armed at counted call `fail_at` (None = no fault).
+    /// C11 (second sentence): with no snapshot / iterator alive and the background work idle, the
+    /// directory holds exactly the table files of the current version, one manifest (the one CURRENT
+    /// names) and no temp file.  Sampled for up to 3 s (a compaction may still be finishing); only a
+    /// mismatch that persists over all samples is reported.  Write-ahead logs are not judged.
+    fn leftovers(d: &DB, fs: &Arc<dyn FileSystem>, db_path: &str) -> Option<String> {
+        use crate::db::DatabaseDescriptor;
+        let names = FileNameHandler::new(db_path.to_string());
+        let mut last = String::new();
+        for _ in 0..30 {
+            let live: std::collections::BTreeSet<u64> = match d.get_descriptor(DatabaseDescriptor::SSTables) {
+                Ok(s) => s.lines().filter_map(|l| l.split_whitespace().next().and_then(|w| w.parse::<u64>().ok())).collect(),
+                Err(_) => return None,
+            };
+            let stem_num = |p: &PathBuf| p.file_stem().and_then(|x| x.to_str()).and_then(|x| x.rsplit('-').next().map(|y| y.to_string())).and_then(|x| x.parse::<u64>().ok());
+            let ext = |p: &PathBuf, e: &str| p.extension().and_then(|x| x.to_str()) == Some(e);
+            let data: Vec<PathBuf> = fs.list_dir(&names.get_data_dir()).unwrap_or_default();
+            let root: Vec<PathBuf> = fs.list_dir(&names.get_db_path()).unwrap_or_default();
+            let on_disk: std::collections::BTreeSet<u64> = data.iter().filter(|p| ext(p, "rdb")).filter_map(|p| stem_num(p)).collect();
+            let temps: Vec<String> = data.iter().chain(root.iter()).filter(|p| ext(p, "dbtemp")).map(|p| p.display().to_string()).collect();
+            let manifests: Vec<String> = root.iter().filter(|p| ext(p, "manifest")).map(|p| p.file_name().unwrap().to_string_lossy().to_string()).collect();
+            let mut current = String::new();
+            if let Ok(mut f) = fs.open_file(&names.get_current_file_path()) { let _ = f.read_to_string(&mut current); }
+            let current = current.trim().to_string();
+            let extra: Vec<u64> = on_disk.difference(&live).cloned().collect();
+            let missing: Vec<u64> = live.difference(&on_disk).cloned().collect();
+            let stale_manifests: Vec<&String> = manifests.iter().filter(|m| !current.ends_with(m.as_str())).collect();
+            if std::env::var("VERIF_FAULTS_VERBOSE").is_ok() { eprintln!("leftovers: live={:?} on_disk={:?} temps={:?} manifests={:?} current={}", live, on_disk, temps, manifests, current); }
+            if extra.is_empty() && missing.is_empty() && temps.is_empty() && stale_manifests.is_empty() { return None; }
+            last = format!("table files not in the current version: {:?}; table files of the current version that are gone: {:?}; temp files: {:?}; manifests other than the one CURRENT names ({}): {:?}", extra, missing, temps, current, stale_manifests);
+            std::thread::sleep(std::time::Duration::from_millis(100));
+        }
+        Some(format!("after recovery, a further write and a clean reopen the directory still holds, after 3 s without any activity: {}", last))
+    }
+
     /// mode: "transient" (that call only), "sticky" (that call and all later ones), "torn1" / "torn" /
     /// "tornm1" (sticky, and a failing write leaves one byte / the first half / all but the last byte
-    /// of its buffer in the file)
+    /// of its buffer in the file), "torn_once" (that call only; if it is a write it leaves the first
+    /// half of its buffer in the file)
     pub fn run(ops: &[DbOp], keys: &[Vec<u8>], fail_at: Option<usize>, mode: &str, reuse: bool) -> Outcome {
-        let ctl = Arc::new(FaultCtl { count: AtomicUsize::new(0), fail_at: AtomicUsize::new(fail_at.unwrap_or(usize::MAX)), sticky: AtomicBool::new(mode != "transient"), torn: AtomicUsize::new(match mode { "torn1" => 1, "torn" => 2, "tornm1" => 3, _ => 0 }), fired: Mutex::new(vec![]) });
+        let ctl = Arc::new(FaultCtl { count: AtomicUsize::new(0), fail_at: AtomicUsize::new(fail_at.unwrap_or(usize::MAX)), sticky: AtomicBool::new(mode != "transient" && mode != "torn_once"), torn: AtomicUsize::new(match mode { "torn1" => 1, "torn" | "torn_once" => 2, "tornm1" => 3, _ => 0 }), fired: Mutex::new(vec![]) });
         let mut options = DbOptions::with_memory_env();
         options.create_if_missing = true;
         options.reuse_log_files = reuse;
         let inner = Arc::clone(&options.filesystem_provider);
+        let raw_fs = Arc::clone(&inner);
         options.filesystem_provider = Arc::new(FaultFs { inner, ctl: Arc::clone(&ctl) });
         let mut bad = vec![];
         let mut trace = vec![];
@@ -642,8 +683,14 @@ pub mod faults {
                 DbOp::Batch(b) => Some(b.clone()),
                 _ => None,
             };
-            if let DbOp::Reopen(_) = op {
+            if let DbOp::Reopen(_) | DbOp::Plant = op {
                 drop(db.take());
+                if let DbOp::Plant = op {
+                    let names = FileNameHandler::new(options.db_path().to_string());
+                    for p in [names.get_table_file_path(900), names.get_temp_file_path(901), names.get_manifest_file_path(0)] {
+                        if let Ok(mut f) = raw_fs.create_file(&p, false) { let _ = f.write_all(b"left behind by a crash"); }
+                    }
+                }
                 db = match DB::open(options.clone()) { Ok(d) => Some(d), Err(e) => { trace.push(format!("op{} reopen -> Err {}", i, e)); None } };
                 if let Some(d) = db.as_ref() { if !overflow { check_reads(d, keys, &worlds, true, &format!("after op{} (reopen)", i), &mut bad, &mut trace); } }
                 continue;
@@ -688,7 +735,10 @@ pub mod faults {
                         let mut keys2 = keys.to_vec();
                         keys2.push(fresh.0.clone());
                         match DB::open(options.clone()) {
-                            Ok(d2) => { if !overflow { check_reads(&d2, &keys2, &worlds, false, "after a further write and a second clean reopen", &mut bad, &mut trace); } }
+                            Ok(d2) => {
+                                if !overflow { check_reads(&d2, &keys2, &worlds, false, "after a further write and a second clean reopen", &mut bad, &mut trace); }
+                                if let Some(msg) = leftovers(&d2, &raw_fs, options.db_path()) { bad.push(msg); }
+                            }
                             Err(e) => bad.push(format!("after a further write the recovered database does not open again (`{}`)", e)),
                         }
                     }
